@@ -178,10 +178,14 @@ func secretsOf(c mycheck.Col, vs ...myVal) [][]byte {
 			// a few digits: containment proves nothing; the stored-value audit compares instead
 		case c.Masked:
 			n := c.MaskLen
+			// the part masking hides; the whole value when it is not longer than plaintext_length (nothing
+			// of such a value may be forwarded in clear: a reader without keys must never receive it)
 			if n > 0 && n < len(v.B) {
 				out = append(out, v.B[n:])
 			} else if n < 0 && -n < len(v.B) {
 				out = append(out, v.B[:len(v.B)+n])
+			} else {
+				out = append(out, v.B)
 			}
 		default:
 			out = append(out, v.B)
@@ -407,6 +411,28 @@ func mysqlReplay(r *ev.Run, ks *filesystem.KeyStore) bool {
 			}
 			emitFindings(r, fs)
 		}
+	case "pg-mask-boundary", "mysql-mask-boundary": // mask_boundary.go
+		var mb mbReplay
+		r.LoadReplay(&mb)
+		if mb.Part == "pg-mask-boundary" {
+			pgMaskBoundaryPhase(r, ks, true, &mb)
+		} else {
+			myMaskBoundaryPhase(r, ks, true, &mb)
+		}
+	case "mask-boundary-dev": // developer shortcut: the mask boundary phases alone
+		pgMaskBoundaryPhase(r, ks, r.Thorough(), nil)
+		myMaskBoundaryPhase(r, ks, r.Thorough(), nil)
+	case "pg-wide", "mysql-wide": // wide.go
+		var w wideReplay
+		r.LoadReplay(&w)
+		if w.Part == "pg-wide" {
+			pgWidePhase(r, ks, true, &w)
+		} else {
+			myWidePhase(r, ks, true, &w)
+		}
+	case "wide-dev": // developer shortcut: the wide result / parameter phases alone
+		pgWidePhase(r, ks, r.Thorough(), nil)
+		myWidePhase(r, ks, r.Thorough(), nil)
 	case "mysql-pumps":
 		mysqlPumpPhase(r, ks, r.Thorough())
 	case "pg-pumps":
